@@ -20,7 +20,7 @@ theorem zipIdx_range_map {α} (f : Nat → α) (k : Nat) :
     ((List.range k).map f).zipIdx = (List.range k).map (fun i => (f i, i)) := by
   apply List.ext_getElem?
   intro i
-  simp only [List.getElem?_zipIdx, List.getElem?_map, List.getElem?_range]
+  simp only [List.getElem?_zipIdx, List.getElem?_map]
   by_cases h : i < k <;> simp [h]
 
 theorem settle_of_idem (h : Heap) (hidem : propagate (propagate h) = propagate h) : settle h = propagate h := by
@@ -44,34 +44,37 @@ theorem not_contains_k (k : Nat) (co : List Nat) (hco : ∀ x ∈ co, x < k) : c
   · rfl
   · simp at h; exact absurd (hco _ h) (Nat.lt_irrefl _)
 
+theorem zipIdx_mkH_aux (K : Kind) (k : Nat) (df : Nat → Bool) (cd : Bool) (co : List Nat) (H : Heap)
+    (hH : mkH K k df cd co = H) :
+    H.zipIdx = (List.range k).map (fun i => (leafN (df i), i)) ++ [({ kind := K, done := cd, owned := co }, k)] := by
+  rw [← hH]
+  simp [mkH, List.zipIdx_append, zipIdx_range_map]
+
 theorem propDone_mkH (K : Kind) (hK : IsCont K) (k : Nat) (df : Nat → Bool) (cd : Bool) (co : List Nat)
     (hco : ∀ x ∈ co, x < k) :
     propDone (mkH K k df cd co) = mkH K k (fun i => df i || (cd && co.contains i)) cd co := by
   have hk := not_contains_k k co hco
   have hob := obf_mkH K hK k df cd co
   unfold propDone
-  generalize hH : mkH K k df cd co = H at hob
-  rw [← hH]
-  simp only [mkH, List.zipIdx_append, List.map_append, zipIdx_range_map, List.map_map, List.length_map,
-    List.length_range, List.zipIdx_cons, List.zipIdx_nil, List.map_cons, List.map_nil, Nat.zero_add]
+  generalize hH : mkH K k df cd co = H at hob ⊢
+  rw [zipIdx_mkH_aux K k df cd co H hH]
+  simp only [List.map_append, List.map_map, List.map_cons, List.map_nil, mkH]
   congr 1
   · apply List.map_congr_left
     intro i _
     simp [stepDone, hob, leafN]
-  · simp [stepDone, hob, hk]
+  · simp [stepDone, hob]; intro h _; exact h
 
 theorem propReleased_mkH (K : Kind) (hK : IsCont K) (k : Nat) (df : Nat → Bool) (cd : Bool) (co : List Nat) :
     propReleased (mkH K k df cd co) = mkH K k df cd co := by
   unfold propReleased
   generalize hH : mkH K k df cd co = H
-  rw [← hH]
-  simp only [mkH, List.zipIdx_append, List.map_append, zipIdx_range_map, List.map_map, List.length_map,
-    List.length_range, List.zipIdx_cons, List.zipIdx_nil, List.map_cons, List.map_nil, Nat.zero_add]
+  rw [zipIdx_mkH_aux K k df cd co H hH, ← hH]
+  simp only [List.map_append, List.map_map, List.map_cons, List.map_nil, mkH]
   congr 1
-  · apply List.map_congr_left
-    intro i _
-    simp [stepReleased, leafN]
-  · rcases hK with rfl | rfl | rfl | rfl <;> simp [stepReleased]
+  all_goals first
+    | (apply List.map_congr_left; intro i _; simp [stepReleased, leafN])
+    | (rcases hK with rfl | rfl | rfl | rfl <;> simp [stepReleased])
 
 theorem propagate_mkH (K : Kind) (hK : IsCont K) (k : Nat) (df : Nat → Bool) (cd : Bool) (co : List Nat)
     (hco : ∀ x ∈ co, x < k) :
@@ -103,7 +106,7 @@ theorem setNode_mkH (K : Kind) (k : Nat) (df : Nat → Bool) (cd : Bool) (co co'
     intro i hi
     have : i < k := List.mem_range.mp hi
     have : (i == k) = false := by simp; omega
-    simp [this]
+    simp; intro h; omega
   · simp
 
 theorem markDone_mkH (K : Kind) (k : Nat) (df : Nat → Bool) (cd : Bool) (co ids : List Nat) :
@@ -114,8 +117,136 @@ theorem markDone_mkH (K : Kind) (k : Nat) (df : Nat → Bool) (cd : Bool) (co id
   congr 1
   · apply List.map_congr_left
     intro i _
-    cases h : ids.contains i <;> simp [leafN, h]
-  · cases h : ids.contains k <;> simp [h]
+    by_cases h : i ∈ ids <;> simp [leafN, h]
+  · by_cases h : k ∈ ids <;> simp [h]
+
+theorem mkH_congr (K : Kind) (k : Nat) (df df' : Nat → Bool) (cd : Bool) (co : List Nat)
+    (h : ∀ i, i < k → df i = df' i) : mkH K k df cd co = mkH K k df' cd co := by
+  unfold mkH
+  congr 1
+  apply List.map_congr_left
+  intro i hi
+  rw [h i (List.mem_range.mp hi)]
+
+/-- closed form of "raw effect, then nested disposal" for an effect on the container of a leaves+container heap -/
+theorem settle_applyEff (K : Kind) (hK : IsCont K) (k : Nat) (df : Nat → Bool) (cd : Bool) (co co' ids : List Nat)
+    (hco' : ∀ x ∈ co', x < k) (upd : Option (Nat × List Nat))
+    (hupd : upd = some (k, co') ∨ (upd = none ∧ co' = co)) :
+    settle (applyEff (mkH K k df cd co) { upd := upd, marks := ids }) =
+      mkH K k (fun i => df i || ids.contains i || ((cd || ids.contains k) && co'.contains i)) (cd || ids.contains k) co' := by
+  rcases hupd with rfl | ⟨rfl, rfl⟩
+  · simp only [applyEff, setNode_mkH, markDone_mkH]
+    rw [settle_mkH K hK _ _ _ _ hco']
+  · simp only [applyEff, markDone_mkH]
+    rw [settle_mkH K hK _ _ _ _ hco']
+
+/-! ### closed forms of every call on the container -/
+
+theorem apply_dispose (K : Kind) (hK : IsCont K) (k : Nat) (df : Nat → Bool) (cd : Bool) (co : List Nat)
+    (hco : ∀ x ∈ co, x < k) :
+    apply (mkH K k df cd co) (.dispose k) = (mkH K k (fun j => df j || co.contains j) true co, .ok) := by
+  simp only [apply, applyRaw, effect]
+  rw [settle_applyEff K hK k df cd co co [k] hco none (Or.inr ⟨rfl, rfl⟩)]
+  simp only [List.contains_cons, List.contains_nil, Bool.or_false, beq_self_eq_true, Bool.or_true, Bool.true_and]
+  congr 1
+  apply mkH_congr
+  intro j hj
+  have : (j == k) = false := by simp; omega
+  simp [this]
+
+theorem apply_add (k : Nat) (df : Nat → Bool) (cd : Bool) (co : List Nat) (x : Nat)
+    (hco : ∀ y ∈ co, y < k) (hx : x < k) :
+    apply (mkH .comp k df cd co) (.add k x) =
+      (mkH .comp k (fun j => df j || (cd && (co ++ [x]).contains j)) cd (co ++ [x]), .ok) := by
+  have hco' : ∀ y ∈ co ++ [x], y < k := by
+    intro y hy; rcases List.mem_append.mp hy with h | h
+    · exact hco y h
+    · simp at h; omega
+  simp only [apply, applyRaw, effect, getCont_mkH, beq_self_eq_true, if_true]
+  rw [settle_applyEff .comp (Or.inl rfl) k df cd co (co ++ [x]) [] hco' _ (Or.inl rfl)]
+  simp
+
+theorem apply_remove_hit (k : Nat) (df : Nat → Bool) (co : List Nat) (x : Nat)
+    (hco : ∀ y ∈ co, y < k) (hx : x < k) (hmem : x ∈ co) :
+    apply (mkH .comp k df false co) (.remove k x) =
+      (mkH .comp k (fun j => df j || decide (j = x)) false (co.erase x), .ok) := by
+  have hco' : ∀ y ∈ co.erase x, y < k := fun y hy => hco y (List.mem_of_mem_erase hy)
+  have hc : co.contains x = true := by simp [hmem]
+  have hkx : k ≠ x := by omega
+  simp only [apply, applyRaw, effect, getCont_mkH, bne_self_eq_false, Bool.false_eq_true, if_false, hc, if_true]
+  rw [settle_applyEff .comp (Or.inl rfl) k df false co (co.erase x) [x] hco' _ (Or.inl rfl)]
+  simp [hkx]
+
+theorem apply_remove_miss (k : Nat) (df : Nat → Bool) (cd : Bool) (co : List Nat) (x : Nat)
+    (hco : ∀ y ∈ co, y < k) (hmiss : cd = true ∨ x ∉ co) :
+    apply (mkH .comp k df cd co) (.remove k x) =
+      (mkH .comp k (fun j => df j || (cd && co.contains j)) cd co, .ok) := by
+  have hres : effect (mkH .comp k df cd co) (.remove k x) = {} := by
+    simp only [effect, getCont_mkH, bne_self_eq_false, Bool.false_eq_true, if_false]
+    rcases hmiss with h | h
+    · simp [h]
+    · cases cd <;> simp [h]
+  simp only [apply, applyRaw, hres]
+  rw [settle_applyEff .comp (Or.inl rfl) k df cd co co [] hco none (Or.inr ⟨rfl, rfl⟩)]
+  simp
+
+theorem apply_clear (k : Nat) (df : Nat → Bool) (cd : Bool) (co : List Nat) (hco : ∀ y ∈ co, y < k) :
+    apply (mkH .comp k df cd co) (.clear k) =
+      (mkH .comp k (fun j => df j || co.contains j) cd (if cd then co else []), .ok) := by
+  cases cd
+  · simp only [apply, applyRaw, effect, getCont_mkH, bne_self_eq_false, Bool.false_eq_true, if_false]
+    rw [settle_applyEff .comp (Or.inl rfl) k df false co [] co (by simp) _ (Or.inl rfl)]
+    have hk : k ∉ co := fun h => absurd (hco k h) (Nat.lt_irrefl k)
+    simp [hk]
+  · simp only [apply, applyRaw, effect, getCont_mkH, bne_self_eq_false, Bool.false_eq_true, if_false, if_true]
+    rw [settle_applyEff .comp (Or.inl rfl) k df true co co [] hco none (Or.inr ⟨rfl, rfl⟩)]
+    simp
+
+/-- assignment to a serial / single / multi container; `old` = what happens to the previous item -/
+theorem apply_assign_dead (K : Kind) (hK : K = .serial ∨ K = .single ∨ K = .multi) (k : Nat) (df : Nat → Bool)
+    (co : List Nat) (x : Nat) (hco : ∀ y ∈ co, y < k) (hx : x < k) :
+    apply (mkH K k df true co) (.assign k x) =
+      (mkH K k (fun j => df j || (co ++ [x]).contains j) true (co ++ [x]), .ok) := by
+  have hco' : ∀ y ∈ co ++ [x], y < k := by
+    intro y hy; rcases List.mem_append.mp hy with h | h
+    · exact hco y h
+    · simp at h; omega
+  have hKc : IsCont K := by rcases hK with h | h | h <;> simp [IsCont, h]
+  rcases hK with rfl | rfl | rfl <;>
+    (simp only [apply, applyRaw, effect, getCont_mkH, if_true]
+     rw [settle_applyEff _ hKc k df true co (co ++ [x]) [] hco' _ (Or.inl rfl)]
+     simp)
+
+theorem apply_assign_serial (k : Nat) (df : Nat → Bool) (co : List Nat) (x : Nat)
+    (hco : ∀ y ∈ co, y < k) (hx : x < k) :
+    apply (mkH .serial k df false co) (.assign k x) =
+      (mkH .serial k (fun j => df j || co.contains j) false [x], .ok) := by
+  simp only [apply, applyRaw, effect, getCont_mkH, Bool.false_eq_true, if_false]
+  rw [settle_applyEff .serial (Or.inr (Or.inl rfl)) k df false co [x] co (by simp; omega) _ (Or.inl rfl)]
+  have hk : k ∉ co := fun h => absurd (hco k h) (Nat.lt_irrefl k)
+  simp [hk]
+
+theorem apply_assign_multi (k : Nat) (df : Nat → Bool) (co : List Nat) (x : Nat) (hx : x < k) :
+    apply (mkH .multi k df false co) (.assign k x) = (mkH .multi k df false [x], .ok) := by
+  simp only [apply, applyRaw, effect, getCont_mkH, Bool.false_eq_true, if_false]
+  rw [settle_applyEff .multi (Or.inr (Or.inr (Or.inr rfl))) k df false co [x] [] (by simp; omega) _ (Or.inl rfl)]
+  simp
+
+theorem apply_assign_single_empty (k : Nat) (df : Nat → Bool) (x : Nat) (hx : x < k) :
+    apply (mkH .single k df false []) (.assign k x) = (mkH .single k df false [x], .ok) := by
+  simp only [apply, applyRaw, effect, getCont_mkH, Bool.false_eq_true, if_false, List.isEmpty_nil, if_true]
+  rw [settle_applyEff .single (Or.inr (Or.inr (Or.inl rfl))) k df false [] [x] [] (by simp; omega) _ (Or.inl rfl)]
+  simp
+
+theorem apply_assign_single_full (k : Nat) (df : Nat → Bool) (c : Nat) (co : List Nat) (x : Nat)
+    (hco : ∀ y ∈ c :: co, y < k) :
+    apply (mkH .single k df false (c :: co)) (.assign k x) = (mkH .single k df false (c :: co), .rejected) := by
+  have he : effect (mkH .single k df false (c :: co)) (.assign k x) = { res := .rejected } := by
+    simp [effect, getCont_mkH]
+  have ha : applyEff (mkH .single k df false (c :: co)) { res := .rejected } = applyEff (mkH .single k df false (c :: co)) {} := rfl
+  simp only [apply, applyRaw, he, ha]
+  rw [settle_applyEff .single (Or.inr (Or.inr (Or.inl rfl))) k df false (c :: co) (c :: co) [] hco none (Or.inr ⟨rfl, rfl⟩)]
+  simp
 
 /-- results of a whole history -/
 def runRes (h : Heap) : List Op → List Res
